@@ -13,7 +13,7 @@ RULE = ("exhaustive lattice of dyadic/int endpoints x query values x scalars for
         "operands) tuple and non-trivial when the interval has positive length or the operation is a rejection test")
 ANCHORS = ["Interval.contains", "Interval.overlaps", "Interval.intersection", "AngleInterval.__contains__",
            "AngleInterval.contains", "Interval.__truediv__", "Interval.__mul__", "Interval.__round__"]
-REQUIRED = ["interval.contains", "interval.overlaps", "interval.intersection", "interval.mul.neg", "interval.div.neg",
+REQUIRED = ["interval.contains", "interval.contains.next-to-a-bound", "interval.overlaps", "interval.intersection", "interval.mul.neg", "interval.div.neg",
             "interval.mul.zero", "interval.round", "interval.reject", "angle.contains.float", "angle.contains.int",
             "angle.len>pi", "angle.wrap", "angle.shift", "angle.contains.interval", "angle.contains.numpy",
             "angle.many-turns-away", "rebound.start-lowered", "rebound.end-raised"]
@@ -66,8 +66,16 @@ def run(ctx):
         fa, fb = F(a), F(b)
         if idx < 3:
             ctx.sample({"op": "Interval", "start": a, "end": b})
-        # membership
-        for x in vals:
+        # membership: lattice values and values next to the bounds (one ulp / a few 2^-k relative steps outside and inside;
+        # exact rational comparison decides them: "exactly when a <= x <= b")
+        near = []
+        for e_ in (float(a), float(b)):
+            near += [math.nextafter(e_, -math.inf), math.nextafter(e_, math.inf)]
+            for k_ in (45, 36, 31):
+                step = max(abs(e_), 2.0 ** -20) * 2.0 ** -k_
+                near += [e_ - step, e_ + step]
+        ctx.feature("interval.contains.next-to-a-bound")
+        for x in vals + near:
             ctx.evaluation(2)
             ctx.feature("interval.contains")
             ctx.fingerprint(["contains", repr(a), repr(b), repr(x)])
